@@ -83,8 +83,16 @@ def wfPrim : Prim → PVal → Bool
   | .bytes, .bytes s => s.length < 18446744073709551616
   | _, _ => false
 
-mutual
-/-- decode a value of table type `t`; `fuel` bounds the nesting depth -/
+/-- the fields of a struct / tuple, in order, each decoded by `d` -/
+def decFieldsWith (d : Nat → Dec PVal) : List Nat → Dec (List PVal)
+  | [], bs => some ([], bs)
+  | t :: ts, bs =>
+    match d t bs with
+    | none => none
+    | some (v, r) => (decFieldsWith d ts r).map fun (vs, r') => (v :: vs, r')
+
+/-- decode a value of table type `t`; `fuel` bounds the nesting depth (structural recursion on `fuel` only:
+    vectors and field lists go through the combinators `decN` / `decFieldsWith`) -/
 def decT (env : Env) : Nat → Nat → Dec PVal
   | 0, _, _ => none
   | fuel + 1, t, bs =>
@@ -94,7 +102,7 @@ def decT (env : Env) : Nat → Nat → Dec PVal
     | some (.vec e) =>
       match decU64 bs with
       | none => none
-      | some (n, r) => (decMany env fuel e n r).map fun (vs, r') => (.list vs, r')
+      | some (n, r) => (decN (decT env fuel e) n r).map fun (vs, r') => (.list vs, r')
     | some (.opt e) =>
       match bs with
       | [] => none
@@ -102,7 +110,7 @@ def decT (env : Env) : Nat → Nat → Dec PVal
         if b = 0 then some (.opt none, r)
         else if b = 1 then (decT env fuel e r).map fun (v, r') => (.opt (some v), r')
         else none
-    | some (.tuple ts) => (decFields env fuel ts bs).map fun (vs, r) => (.tuple vs, r)
+    | some (.tuple ts) => (decFieldsWith (decT env fuel) ts bs).map fun (vs, r) => (.tuple vs, r)
     | some (.enum vs) =>
       match decU32 bs with
       | none => none
@@ -110,79 +118,47 @@ def decT (env : Env) : Nat → Nat → Dec PVal
         match vs[i]? with
         | none => none
         | some p => (decT env fuel p r).map fun (v, r') => (.variant i v, r')
-termination_by fuel _ _ => (fuel, 0)
-/-- `n` items of type `t` -/
-def decMany (env : Env) : Nat → Nat → Nat → Dec (List PVal)
-  | _, _, 0, bs => some ([], bs)
-  | fuel, t, n + 1, bs =>
-    match decT env fuel t bs with
-    | none => none
-    | some (v, r) => (decMany env fuel t n r).map fun (vs, r') => (v :: vs, r')
-termination_by fuel _ n _ => (fuel, n + 1)
-/-- the fields of a struct / tuple, in order -/
-def decFields (env : Env) : Nat → List Nat → Dec (List PVal)
-  | _, [], bs => some ([], bs)
-  | fuel, t :: ts, bs =>
-    match decT env fuel t bs with
-    | none => none
-    | some (v, r) => (decFields env fuel ts r).map fun (vs, r') => (v :: vs, r')
-termination_by fuel ts _ => (fuel, ts.length + 1)
-end
 
-mutual
+def encFieldsWith (e : Nat → PVal → Bytes) : List Nat → List PVal → Bytes
+  | t :: ts, v :: vs => e t v ++ encFieldsWith e ts vs
+  | _, _ => []
+
 /-- encode a value at table type `t` (nothing for a value of the wrong shape; see `wfT`) -/
 def encT (env : Env) : Nat → Nat → PVal → Bytes
   | 0, _, _ => []
   | fuel + 1, t, v =>
     match env[t]?, v with
     | some (.prim p), v => encPrim p v
-    | some (.vec e), .list vs => encVarU vs.length ++ encMany env fuel e vs
+    | some (.vec e), .list vs => encVarU vs.length ++ encList (encT env fuel e) vs
     | some (.opt _), .opt none => [0]
     | some (.opt e), .opt (some x) => 1 :: encT env fuel e x
-    | some (.tuple ts), .tuple vs => encFields env fuel ts vs
+    | some (.tuple ts), .tuple vs => encFieldsWith (encT env fuel) ts vs
     | some (.enum ps), .variant i x =>
       match ps[i]? with
       | some p => encVarU i ++ encT env fuel p x
       | none => []
     | _, _ => []
-termination_by fuel _ v => (fuel, 0, sizeOf v)
-def encMany (env : Env) : Nat → Nat → List PVal → Bytes
-  | _, _, [] => []
-  | fuel, t, v :: vs => encT env fuel t v ++ encMany env fuel t vs
-termination_by fuel _ vs => (fuel, 1, sizeOf vs)
-def encFields (env : Env) : Nat → List Nat → List PVal → Bytes
-  | fuel, t :: ts, v :: vs => encT env fuel t v ++ encFields env fuel ts vs
-  | _, _, _ => []
-termination_by fuel _ vs => (fuel, 1, sizeOf vs)
-end
 
-mutual
+def wfFieldsWith (w : Nat → PVal → Bool) : List Nat → List PVal → Bool
+  | [], [] => true
+  | t :: ts, v :: vs => w t v && wfFieldsWith w ts vs
+  | _, _ => false
+
 /-- the value has the shape of table type `t`, all numbers are in range, nesting depth ≤ `fuel` -/
 def wfT (env : Env) : Nat → Nat → PVal → Bool
   | 0, _, _ => false
   | fuel + 1, t, v =>
     match env[t]?, v with
     | some (.prim p), v => wfPrim p v
-    | some (.vec e), .list vs => vs.length < 18446744073709551616 && wfMany env fuel e vs
+    | some (.vec e), .list vs => decide (vs.length < 18446744073709551616) && vs.all (wfT env fuel e)
     | some (.opt _), .opt none => true
     | some (.opt e), .opt (some x) => wfT env fuel e x
-    | some (.tuple ts), .tuple vs => wfFields env fuel ts vs
+    | some (.tuple ts), .tuple vs => wfFieldsWith (wfT env fuel) ts vs
     | some (.enum ps), .variant i x =>
       match ps[i]? with
-      | some p => i < 4294967296 && wfT env fuel p x
+      | some p => decide (i < 4294967296) && wfT env fuel p x
       | none => false
     | _, _ => false
-termination_by fuel _ v => (fuel, 0, sizeOf v)
-def wfMany (env : Env) : Nat → Nat → List PVal → Bool
-  | _, _, [] => true
-  | fuel, t, v :: vs => wfT env fuel t v && wfMany env fuel t vs
-termination_by fuel _ vs => (fuel, 1, sizeOf vs)
-def wfFields (env : Env) : Nat → List Nat → List PVal → Bool
-  | _, [], [] => true
-  | fuel, t :: ts, v :: vs => wfT env fuel t v && wfFields env fuel ts vs
-  | _, _, _ => false
-termination_by fuel _ vs => (fuel, 1, sizeOf vs)
-end
 
 /-- `decode_program_from_bytes`: decode the root type, refuse trailing bytes -/
 def decodeAll (env : Env) (root : Nat) (bs : Bytes) : Option PVal :=
